@@ -87,7 +87,8 @@ let () =
       | None -> None in
     expect "packed" (opt string_of_n packed) o.(0)
     @ expect "rt" (opt (fun l -> if l = [] then "-" else string_of_nlist l) back8) o.(1)
-    @ (if o.(1) <> i.(1) then [Specfail ("path_roundtrip", "unpack(pack es) <> es")] else []));
+    @ (if o.(1) <> i.(1) then [Specfail ("path_roundtrip", "unpack(pack es) <> es")] else [])
+    @ (if Array.length o > 2 && o.(2) <> i.(1) then [Specfail ("path_roundtrip_i64", "the path does not come back from its signed 64-bit form: " ^ o.(2))] else []));
   (* abs street index | code variant rtcode rtvariant street index *)
   let showv = function Percent -> "percent" | Learned -> "learned" | Preflop -> "preflop" in
   register "abs" (fun i o ->
